@@ -181,12 +181,15 @@ func (ww *WW) restoreWallet(w string, replace bool, why string) {
 	var err error
 	inc := &Inc{Node: newName, Epoch: 1, Alive: true}
 	old := ww.rc.S.MaxSteps
-	ww.rc.S.MaxSteps += 20000
+	stepsBefore := ww.rc.S.Steps
+	ww.rc.S.MaxSteps += 40000
 	ww.rc.S.BeginEpisode()
 	ww.rc.S.Run1(ww.name("restore."+newName), inc, func() {
 		got, err = wallet.Restore(dir, mnemonic, urls)
 	})
-	ww.rc.S.MaxSteps = old
+	// a restore is step-hungry (one storage call per blinded message at the mint): it does not count
+	// against the run's step bound
+	ww.rc.S.MaxSteps = old + (ww.rc.S.Steps - stepsBefore)
 	if err != nil {
 		W.Book.Violate("C19.restore_failed", why, "Restore failed: %v", err)
 		return
